@@ -2,7 +2,7 @@ SPECIFICATION Spec
 CONSTANTS
   NonceLen = 16
   MaxEnv = 16384
-  Nums = {5, 6, 7, 9, 11, 12, 13}
+  Nums = {6, 7, 9, 12, 13}
   MaxFields = 2
   Fanout = 0
   ExportMin = 99
